@@ -95,6 +95,29 @@ def listIndex (len : Nat) (k : Int) : Option Nat :=
   let k' := if k < 0 then (len : Int) + k else k
   if k' < 0 ∨ k' ≥ len then none else some k'.toNat
 
+/-- the registered functions the model knows -/
+inductive Fn
+  | exit | addKey | getKey | setTag | dropKey | rename | setMeasurement | len | use | cast
+  | trim | uppercase | urlDecode | replace | loadJson | strfmt | printf | p | pr | void
+  | grok | addPattern | datetime | defaultTime | xml | sqlCover
+  deriving DecidableEq, Repr, Inhabited
+
+def Fn.ofName (name : Bytes) : Option Fn :=
+  if name = B "exit" then some .exit else if name = B "add_key" then some .addKey
+  else if name = B "get_key" then some .getKey else if name = B "set_tag" then some .setTag
+  else if name = B "drop_key" then some .dropKey else if name = B "rename" then some .rename
+  else if name = B "set_measurement" then some .setMeasurement else if name = B "len" then some .len
+  else if name = B "use" then some .use else if name = B "cast" then some .cast
+  else if name = B "trim" then some .trim else if name = B "uppercase" then some .uppercase
+  else if name = B "url_decode" then some .urlDecode else if name = B "replace" then some .replace
+  else if name = B "load_json" then some .loadJson else if name = B "strfmt" then some .strfmt
+  else if name = B "printf" then some .printf else if name = B "p" then some .p
+  else if name = B "pr" then some .pr else if name = B "void" then some .void
+  else if name = B "grok" then some .grok else if name = B "add_pattern" then some .addPattern
+  else if name = B "datetime" then some .datetime else if name = B "default_time" then some .defaultTime
+  else if name = B "xml" then some .xml else if name = B "sql_cover" then some .sqlCover
+  else none
+
 section
 variable (env : Env)
 
@@ -346,10 +369,12 @@ def evalAssign : Nat → AsOp → List Node → List Node → Pos → EM TV
 def evalCall : Nat → Bytes → List Node → Pos → Nat → EM TV
   | 0, _, _, _, _ => outOfFuel
   | f+1, name, args, np, site => fun s =>
-    if !env.fns.contains name then .ok voidTV s
+    let reset (s : St) : St := { s with task := { s.task with regs := [] } }
+    if !env.fns.contains name then .ok voidTV (reset s)
     else
-      let reset (s : St) : St := { s with task := { s.task with regs := [] } }
-      match builtin f name args np site s with
+      match (match Fn.ofName name with
+             | some fn => builtin f fn name args np site s
+             | none => .need (B "unmodelled:fn:" ++ name)) with
       | .ok _ s' =>
         let r := match s'.task.regs with | x :: _ => x | [] => voidTV
         .ok r (reset s')
@@ -359,9 +384,9 @@ def evalCall : Nat → Bytes → List Node → Pos → Nat → EM TV
       | .need q => .need q
 
 /-- the registered functions -/
-def builtin : Nat → Bytes → List Node → Pos → Nat → EM Unit
-  | 0, _, _, _, _ => outOfFuel
-  | f+1, name, args, np, site =>
+def builtin : Nat → Fn → Bytes → List Node → Pos → Nat → EM Unit
+  | 0, _, _, _, _, _ => outOfFuel
+  | f+1, fn, name, args, np, site =>
     let ret (x : TV) : EM Unit := modTask fun t => { t with regs := if t.regs.length < 6 then t.regs ++ [x] else t.regs }
     let keyOf (n : Node) : EM Bytes :=
       match getKeyName n with
@@ -381,8 +406,9 @@ def builtin : Nat → Bytes → List Node → Pos → Nat → EM Unit
     let setPtTag (key : Bytes) (x : TV) : EM Unit := do
       let cs ← conv2str env x
       modWorld fun w => { w with pt := w.pt.setTag (normKey key) cs }
-    if name = B "exit" then modTask fun t => { t with exit := true }
-    else if name = B "add_key" then
+    match fn with
+    | .exit => modTask fun t => { t with exit := true }
+    | .addKey =>
       match args with
       | [k] => do
         let key ← keyOf k
@@ -397,7 +423,7 @@ def builtin : Nat → Bytes → List Node → Pos → Nat → EM Unit
           | r => r)
         setPt key v
       | _ => runErr np "argc"
-    else if name = B "get_key" then
+    | .getKey =>
       match args with
       | [k] => do
         let key ← keyOf k
@@ -406,7 +432,7 @@ def builtin : Nat → Bytes → List Node → Pos → Nat → EM Unit
         | some v => ret v
         | none => ret nilTV
       | _ => runErr np "argc"
-    else if name = B "set_tag" then
+    | .setTag =>
       match args with
       | [k] => do
         let key ← keyOf k
@@ -419,20 +445,20 @@ def builtin : Nat → Bytes → List Node → Pos → Nat → EM Unit
         let v ← evalNode f e
         setPtTag key v
       | _ => runErr np "argc"
-    else if name = B "drop_key" then
+    | .dropKey =>
       match args with
       | [k] => do
         let key ← keyOf k
         modWorld fun w => { w with pt := w.pt.delete (normKey key) }
       | _ => runErr np "argc"
-    else if name = B "rename" then
+    | .rename =>
       match args with
       | [t, fr] => do
         let to ← keyOf t
         let frm ← keyOf fr
         modWorld fun w => { w with pt := w.pt.rename (normKey to) (normKey frm) }
       | _ => runErr np "argc"
-    else if name = B "set_measurement" then
+    | .setMeasurement =>
       match args with
       | a0 :: rest =>
         if rest.length > 1 then runErr np "argc" else fun s =>
@@ -452,7 +478,7 @@ def builtin : Nat → Bytes → List Node → Pos → Nat → EM Unit
            | none => .ok () s1)
         | r => (match r with | .panic m => .panic m | .fuel => .fuel | .need q => .need q | _ => .fuel)
       | _ => runErr np "argc"
-    else if name = B "len" then
+    | .len =>
       match args with
       | a0 :: _ => do
         let v ← evalNode f a0
@@ -474,7 +500,7 @@ def builtin : Nat → Bytes → List Node → Pos → Nat → EM Unit
           | _ => panicE "len: val.(string)")
         | _ => ret ⟨.int 0, .int⟩
       | [] => panicE "len: Param[0]"
-    else if name = B "use" then
+    | .use =>
       match args with
       | [.strLit _ _] =>
         match env.bound site with
@@ -490,7 +516,7 @@ def builtin : Nat → Bytes → List Node → Pos → Nat → EM Unit
           | .need q => .need q
       | [a0] => runErr (Node.start a0) "use-arg"
       | _ => runErr np "argc"
-    else if name = B "cast" then
+    | .cast =>
       match args with
       | [k, .strLit ty _] => do
         let key ← keyOf k
@@ -515,7 +541,7 @@ def builtin : Nat → Bytes → List Node → Pos → Nat → EM Unit
               | none => needE (B "unmodelled:cast-answer")
       | [_, a1] => runErr (Node.start a1) "cast-type-arg"
       | _ => runErr np "argc"
-    else if name = B "trim" ∨ name = B "uppercase" ∨ name = B "url_decode" then
+    | .trim | .uppercase | .urlDecode =>
       match args with
       | k :: rest => do
         let key ← keyOf k
@@ -528,17 +554,17 @@ def builtin : Nat → Bytes → List Node → Pos → Nat → EM Unit
           | none => pure ()
           | some cont =>
             let q : Bytes :=
-              if name = B "trim" then
+              if fn = .trim then
                 let cut := match rest with | [.strLit c _] => c | _ => []
                 B "trim:" ++ hexOf cut ++ [58] ++ hexOf cont
-              else if name = B "uppercase" then B "upper:" ++ hexOf cont
+              else if fn = .uppercase then B "upper:" ++ hexOf cont
               else B "urldecode:" ++ hexOf cont
             let a ← ask env q
             let (ok, payload) := splitAnswer a
             if ok then setPt key ⟨.str (unhex payload), .str⟩
             else runErr np "engine-error"
       | [] => panicE "Param[0]"
-    else if name = B "replace" then
+    | .replace =>
       match args with
       | [k, .strLit pat _, .strLit rep _] => do
         let key ← keyOf k
@@ -559,7 +585,7 @@ def builtin : Nat → Bytes → List Node → Pos → Nat → EM Unit
          | .strLit _ _ => runErr (Node.start a2) "replace-arg"
          | _ => runErr (Node.start a1) "replace-arg")
       | _ => runErr np "argc"
-    else if name = B "load_json" then
+    | .loadJson =>
       match args with
       | a0 :: _ => do
         let v ← evalNode f a0
@@ -577,7 +603,7 @@ def builtin : Nat → Bytes → List Node → Pos → Nat → EM Unit
           | none => needE (B "unmodelled:jsonload-answer")
         | _ => panicE "val.(string)"
       | [] => panicE "Param[0]"
-    else if name = B "strfmt" then
+    | .strfmt =>
       match args with
       | k :: (.strLit fmts _) :: rest => do
         let key ← keyOf k
@@ -589,7 +615,7 @@ def builtin : Nat → Bytes → List Node → Pos → Nat → EM Unit
         setPt key ⟨.str (unhex (splitAnswer a).2), .str⟩
       | _ :: a1 :: _ => runErr (Node.start a1) "strfmt-fmt-arg"
       | _ => runErr np "argc"
-    else if name = B "printf" then
+    | .printf =>
       match args with
       | a0 :: rest => fun s =>
         -- getArgStr: an evaluation error or a non-string format means "print nothing"
@@ -610,14 +636,126 @@ def builtin : Nat → Bytes → List Node → Pos → Nat → EM Unit
         | .fuel => .fuel
         | .need q => .need q
       | [] => runErr np "argc"
-    else if name = B "p" ∨ name = B "pr" ∨ name = B "void" then do
+    | .addPattern => pure ()
+    | .grok =>
+      let retB (b : Bool) : EM Unit := ret ⟨.bool b, .bool⟩
+      match env.grok site with
+      | none => do retB false; runErr np "no-grok-obj"
+      | some q =>
+        match args with
+        | k :: _ :: rest =>
+          match getKeyName k with
+          | .bad => do retB false; runErr (Node.start k) "key-name"
+          | .unmodelled => needE (B "unmodelled:keyname")
+          | .ok key => do
+            let s ← getS
+            let cont ← (match getKey s key with
+              | none => pure none
+              | some v => conv2str env v)
+            match cont with
+            | none => retB false
+            | some val =>
+              let trim : Option Bool := match rest with
+                | [] => some true
+                | [.boolLit b _] => some b
+                | _ => none
+              match trim with
+              | none => do retB false; runErr ((rest.head?.map Node.start).getD Pos.invalid) "expect-boollit"
+              | some tr =>
+                let a ← ask env (B "grokrun:" ++ q ++ [58] ++ (if tr then [116] else [102]) ++ [58] ++ hexOf val)
+                let (ok, payload) := splitAnswer a
+                if !ok then retB false else
+                match unrender 4000 [] (unhex payload) with
+                | some (.ref 0, [Obj.map kvs], _) =>
+                  -- captures land in the point as fields with the engine's types
+                  let rec put : List (Bytes × Val) → EM Unit
+                    | [] => pure ()
+                    | (ck, cv) :: r => do setPt ck (detect [] cv); put r
+                  put (sortKeys kvs)
+                  retB true
+                | _ => needE (B "unmodelled:grok-answer")
+        | _ => panicE "grok: Param[0]"
+    | .datetime =>
+      match args with
+      | [k, .strLit prec _, .strLit fmts _] => do
+        let key ← keyOf k
+        let s ← getS
+        match getKey s key with
+        | none => pure ()
+        | some v =>
+          let a ← ask env (B "datefmt:" ++ renderV s.world.heap v.v ++ [58] ++ hexOf prec ++ [58] ++ hexOf fmts)
+          let (ok, payload) := splitAnswer a
+          if ok then setPt key ⟨.str (unhex payload), .str⟩ else runErr np "datefmt"
+      | [_, a1, a2] =>
+        (match a1 with
+         | .strLit _ _ => runErr (Node.start a2) "expect-strlit"
+         | _ => runErr (Node.start a1) "expect-strlit")
+      | _ => runErr np "argc"
+    | .defaultTime =>
+      match args with
+      | k :: rest => do
+        let key ← keyOf k
+        let s ← getS
+        let cont ← (match getKey s key with
+          | none => pure none
+          | some v => conv2str env v)
+        match cont with
+        | none => pure ()
+        | some c =>
+          let tz : Option Bytes := match rest with
+            | [] => some []
+            | (.strLit z _) :: _ => some z
+            | _ => none
+          let fail (msg : Bytes) : EM Unit := setPt (B "pl_msg") ⟨.str (B "time convert failed: " ++ msg), .str⟩
+          match tz with
+          | none => needE (B "unmodelled:default_time-tz-arg")
+          | some z =>
+            let a ← ask env (B "timestamp:" ++ hexOf z ++ [58] ++ hexOf c)
+            let (ok, payload) := splitAnswer a
+            if ok then
+              let nanos := (takeDec (unhex payload)).1
+              modWorld fun w => { w with pt := { (w.pt.delete (normKey key)) with time := nanos } }
+            else fail (unhex payload)
+      | [] => runErr np "argc"
+    | .xml =>
+      match args with
+      | [k, .strLit xp _, fnode] => do
+        let key ← keyOf k
+        let field ← keyOf fnode
+        let s ← getS
+        let cont ← (match getKey s key with
+          | none => pure none
+          | some v => conv2str env v)
+        match cont with
+        | none => pure ()
+        | some c =>
+          let a ← ask env (B "xml:" ++ hexOf xp ++ [58] ++ hexOf c)
+          let (ok, payload) := splitAnswer a
+          if ok then setPt field ⟨.str (unhex payload), .str⟩ else pure ()
+      | [_, a1, _] => runErr (Node.start a1) "expect-strlit"
+      | _ => runErr np "argc"
+    | .sqlCover =>
+      match args with
+      | [k] => do
+        let key ← keyOf k
+        let s ← getS
+        let cont ← (match getKey s key with
+          | none => pure none
+          | some v => conv2str env v)
+        match cont with
+        | none => pure ()
+        | some c =>
+          let a ← ask env (B "sql:" ++ hexOf c)
+          let (ok, payload) := splitAnswer a
+          if ok then setPt key ⟨.str (unhex payload), .str⟩ else pure ()
+      | _ => runErr np "argc"
+    | .p | .pr | .void => do
       -- probes supplied by the harness through the function table:
       -- p(...) records its evaluated arguments; pr(...) also returns the first one; void() does nothing
       let vs ← evalList f args
       let s ← getS
       modWorld fun w => { w with trace := Event.probe name (vs.map (renderTV s.world.heap)) :: w.trace }
-      if name = B "pr" then (match vs with | v :: _ => ret v | [] => pure ())
-    else needE (B "unmodelled:fn:" ++ name)
+      if fn = .pr then (match vs with | v :: _ => ret v | [] => pure ())
 end
 
 /-- `(*Script).Run` -/
